@@ -538,6 +538,8 @@ func (o *operation) handle() {
 		switch err := o.readRequestMessage(nil, o.request.Body, &reqMsg); {
 		case errors.Is(err, io.EOF):
 			// okay for the first message: means empty message data
+			// (the message has no buffer yet if the stream ended before any envelope)
+			reqMsg.reset(o.bufferPool, true, false)
 			reqMsg.markReady()
 		case err != nil:
 			o.reportError(err)
